@@ -118,6 +118,11 @@ def run_case(ctx, rep, spec, cn, posname, pos, fields, limit, model, path=None, 
             rep.tie(f"level header text of levels {diff} differs from the Lean renderer (whose parse-after-render law is proved)", case)
         else:
             rep.agree()
+        cert = tastelib.wf_certificate(out, leanio)
+        if cert is None:
+            rep.agree(); rep.count("wf-certificate-passes")
+        elif cert != "names":
+            rep.tie(f"the written slice does not pass the Lean well-formedness certificate ({cert})", case)
         why = writers.global_header_theorem_applies(out, leanio)
         if why:
             rep.tie(f"global header of the written slice: {why} (whose parse-after-render law is proved)", case)
